@@ -15,7 +15,9 @@ open IpcHub.Ts IpcHub.Hls IpcHub.HlsLemmas
     recognised; three segments are kept; a segment shorter than 100 ms would be dropped;
     memorySegmentFile.get and Playlist.M3u8 hand out private copies (not the pooled buffers);
     every access to the segment list is under the playlist lock; the persistent file is flushed
-    before it is closed; reapSegment closes, opens, then flushes the audio cache. -/
+    before it is closed; reapSegment closes, opens, then flushes the audio cache; the caller's
+    token is query-escaped in the segment URIs; the first segment is timed from its first frame;
+    config.HlsFragment() never yields less than one second. -/
 theorem c10_source_facts :
     IpcHub.Gen.hlsFactsUnknown = [] ∧ genCfg.remain = 3 ∧ genCfg.minDurMs = 100 ∧
     genCfg.aacDelay = 100 ∧ genCfg.aacSync = 100 ∧ genCfg.samples = 1024 ∧
@@ -23,7 +25,8 @@ theorem c10_source_facts :
     IpcHub.Gen.lockAddSegment = true ∧ IpcHub.Gen.lockClose = true ∧
     IpcHub.Gen.rlockM3u8 = true ∧ IpcHub.Gen.rlockSegment = true ∧
     IpcHub.Gen.persistentFlushBeforeClose = true ∧
-    IpcHub.Gen.reapOrder = ["segmentClose", "segmentOpen", "flushAudioCache"] := by
+    IpcHub.Gen.reapOrder = ["segmentClose", "segmentOpen", "flushAudioCache"] ∧
+    genCfg.tokenEscaped = true ∧ genCfg.firstFromFrame = true ∧ 1 ≤ genCfg.minFragment := by
   decide
 
 /-- Playlist invariant, for EVERY frame sequence (any PIDs, sizes, time stamps, monotone or
@@ -34,12 +37,12 @@ theorem c10_source_facts :
     * everything older has been deleted;
     * no listed segment is shorter than the 100 ms minimum. -/
 theorem c10_playlist_inv (frag rate : Nat) (fs : List Frame) (g : Gen)
-    (h : Hls.writeFrames genCfg frag rate init fs = some g) :
+    (h : Hls.writeFrames genCfg frag rate (initOf genCfg) fs = some g) :
     (g.deleted ++ g.playlist).map (·.seq) = List.range' 1 (g.deleted ++ g.playlist).length
     ∧ (∃ s, g.current = some s ∧ s.seq = (g.deleted ++ g.playlist).length + 1)
     ∧ g.playlist.length ≤ 3 ∧ (g.deleted ≠ [] → g.playlist.length = 3)
     ∧ (∀ s ∈ g.playlist, s.dur ≥ 9000) := by
-  obtain ⟨⟨hn, s, hs, hseq, hno⟩, h2, h3, h4⟩ := writeFrames_inv genCfg frag rate fs init g h (inv_init genCfg)
+  obtain ⟨⟨hn, s, hs, hseq, hno⟩, h2, h3, h4⟩ := writeFrames_inv genCfg frag rate fs (initOf genCfg) g h (inv_init genCfg _)
   refine ⟨hn, ⟨s, hs, by omega⟩, h2, h3, ?_⟩
   intro x hx
   have := h4 x (List.mem_append_right _ hx)
@@ -88,11 +91,11 @@ theorem c10_segment_resolves (pl : List Seg) :
       exactly the concatenation of (ADTS header ++ AAC frame) over the source audio frames: no
       audio frame is lost, duplicated or reordered by the caching and re-framing. -/
 theorem c10_exactly_once (frag rate : Nat) (hfrag : 1 ≤ frag) (fs : List Frame) (g : Gen)
-    (h : Hls.writeFrames genCfg frag rate init fs = some g) :
+    (h : Hls.writeFrames genCfg frag rate (initOf genCfg) fs = some g) :
     g.dropped = []
     ∧ videoOf genCfg (written g) = srcVideo genCfg fs
     ∧ audioEs genCfg (written g) ++ cacheEs g = srcAudioEs genCfg fs := by
-  have := writeFrames_cons genCfg frag rate hfrag (by decide) fs init g [] [] (cons_init genCfg) h
+  have := writeFrames_cons genCfg frag rate hfrag (by decide) fs (initOf genCfg) g [] [] (cons_init genCfg _) h
   obtain ⟨h1, _, h3, h4, _⟩ := this
   exact ⟨h1, by simpa using h3, by simpa using h4⟩
 
@@ -100,7 +103,7 @@ theorem c10_exactly_once (frag rate : Nat) (hfrag : 1 ≤ frag) (fs : List Frame
     config.HlsFragment can pass) every key frame reaps, a GOP shorter than 100 ms is closed below
     the minimum duration, its segment is deleted and its frames are lost.  -/
 theorem c10_short_segment_dropped_when_frag_zero :
-    ∃ g, Hls.writeFrames genCfg 0 8000 init
+    ∃ g, Hls.writeFrames genCfg 0 8000 (initOf genCfg)
       [ { pid := 256, streamId := 0xe0, dts := 0, pts := 0, header := [0,0,0,1], payload := [0x65, 1], key := true },
         { pid := 256, streamId := 0xe0, dts := 3000, pts := 3000, header := [0,0,0,1], payload := [0x65, 2], key := true },
         { pid := 256, streamId := 0xe0, dts := 6000, pts := 6000, header := [0,0,0,1], payload := [0x65, 3], key := true } ] = some g
@@ -145,10 +148,10 @@ def longGopStream : List Frame :=
     slice).  Excluded: exactly the segments with the ghost flag `byAudio` (open known finding
     `segment-not-starting-with-key:audio-side-reap`). -/
 theorem c10_starts_with_key_partial (frag rate : Nat) (fs : List Frame) (g : Gen)
-    (h : Hls.writeFrames genCfg frag rate init fs = some g) :
+    (h : Hls.writeFrames genCfg frag rate (initOf genCfg) fs = some g) :
     ∀ s ∈ g.deleted ++ g.playlist ++ g.current.toList, s.byAudio = false → s.seqHdr = false →
       ∃ v rest, videoOf genCfg s.frames = v :: rest ∧ v.key = true := by
-  obtain ⟨hcl, ⟨s0, hs0, hk0⟩, _⟩ := writeFrames_key genCfg frag rate fs init g (keyInv_init genCfg) h
+  obtain ⟨hcl, ⟨s0, hs0, hk0⟩, _⟩ := writeFrames_key genCfg frag rate fs (initOf genCfg) g (keyInv_init genCfg _) h
   intro s hs
   rcases List.mem_append.mp hs with hs | hs
   · exact hcl s hs
@@ -159,7 +162,7 @@ theorem c10_starts_with_key_partial (frag rate : Nat) (fs : List Frame) (g : Gen
     first video frame is not a key frame.  Replayed on the implementation by
     corpus/C10/witnesses.case. -/
 theorem c10_audio_reap_witness :
-    (match Hls.writeFrames genCfg 1 8000 init longGopStream with
+    (match Hls.writeFrames genCfg 1 8000 (initOf genCfg) longGopStream with
      | some g =>
        (match g.current with
         | some s => s.seq == 2 && s.byAudio &&
@@ -218,7 +221,7 @@ theorem c10_m3u8_alias_counterexample :
 /-- Bounded storage: at any time at most 3 finished segments and the open one exist; all other
     segments ever created are in `deleted` (file removed / buffer returned) or `dropped`. -/
 theorem c10_bounded (frag rate : Nat) (fs : List Frame) (g : Gen)
-    (h : Hls.writeFrames genCfg frag rate init fs = some g) :
+    (h : Hls.writeFrames genCfg frag rate (initOf genCfg) fs = some g) :
     g.playlist.length + g.current.toList.length ≤ 4 := by
   obtain ⟨_, _, h3, _, _⟩ := c10_playlist_inv frag rate fs g h
   cases g.current <;> simp <;> omega
@@ -227,7 +230,7 @@ theorem c10_bounded (frag rate : Nat) (fs : List Frame) (g : Gen)
 
 /-- a run of the model on a concrete stream (two GOPs of one second, fragment 1 s) succeeds
     and completes a segment -/
-example : ∃ g, Hls.writeFrames genCfg 1 8000 init
+example : ∃ g, Hls.writeFrames genCfg 1 8000 (initOf genCfg)
     [ { pid := 256, streamId := 0xe0, dts := 0, pts := 0, header := [0,0,0,1,9,0xf0,0,0,1], payload := [0x65, 1], key := true },
       { pid := 256, streamId := 0xe0, dts := 45000, pts := 45000, header := [0,0,0,1,9,0xf0,0,0,1], payload := [0x41, 2], key := false },
       { pid := 256, streamId := 0xe0, dts := 90000, pts := 90000, header := [0,0,0,1,9,0xf0,0,0,1], payload := [0x65, 3], key := true },
